@@ -14,19 +14,20 @@ from .. import common as C
 
 HARNESS = os.path.join(C.VERIF, "harness", "readio_h.c")
 NWORK = max(2, min(8, (os.cpu_count() or 4) // 2))
+MAX_HITS = 5                 # property-oracle hits that are shrunk and reported per run
 
 
 def hx(s):
     """the text as the hex of its UTF-8 bytes (the files of the protocol are byte strings)"""
-    return s.encode("utf-8").hex()
+    return s.encode("utf-8", "surrogateescape").hex()
 
 
 def unhx(h):
-    return bytes.fromhex(h).decode("utf-8")
+    return bytes.fromhex(h).decode("utf-8", "surrogateescape")
 
 
 def blen(s):
-    return len(s.encode("utf-8"))
+    return len(s.encode("utf-8", "surrogateescape"))
 
 
 # what each case kind exercises (goes into the evidence)
@@ -37,9 +38,11 @@ LAYERS = {
     "G": "as F, read with getbline (hawk_sio_getbchars / hawk_rtx_readiobytes)",
     "P": "lib/std.c console + lib/sio.c/tio.c reading standard input = a real pipe fed by a writer thread: each read(2) returns exactly one chunk of the given BYTE chunking (Z = all 2^(n-1) byte chunkings)",
     "Q": "as P, read with getbline",
+    "U": "as Z / F (kind T) on byte strings that are NOT valid UTF-8 (stray continuation bytes, truncated sequences, 0xff): lib/tio.c's handling of "
+         "illegal and incomplete sequences; no model (what the decoder substitutes is not modelled): all byte chunkings and the file read must agree",
 }
-STD_KINDS = "FGPQZ"          # the chunking seen by rio.c is decided by sio/tio: in.pos/len are not compared with the model
-BYTECUT_KINDS = "BYGQPZF"    # cut positions count bytes, not characters
+STD_KINDS = "FGPQZUT"         # the chunking seen by rio.c is decided by sio/tio: in.pos/len are not compared with the model
+BYTECUT_KINDS = "BYGQPZFUT"   # cut positions count bytes, not characters
 
 
 # mode token -> (description, python regex of a separator for the coverage measure, stable?)
@@ -66,8 +69,20 @@ UNSTABLE = {M_ABCD, M_EOL, M_ALTLONG}          # patterns whose match can change
 STABLE_MODES = [M_D, M_SB, M_SNL, M_P0, M_P1, M_AB, M_APLUS, M_NLNL]
 
 
+def base_mode(modeword):
+    """the RS mode of a MODE word that may carry a program (`<mode>@<letter><k>`)"""
+    return modeword.split("@")[0]
+
+
+def prog_of(modeword):
+    p = modeword.split("@")[1] if "@" in modeword else ""
+    if not p:
+        return "", 1
+    return p[0], (int(p[1:]) if p[1:].isdigit() and int(p[1:]) > 0 else 1)
+
+
 def is_regex(mode):
-    return mode.startswith("R")
+    return base_mode(mode).startswith("R")
 
 
 # ---------------------------------------------------------------------------------------------------------------
@@ -104,6 +119,8 @@ def parse_case(line):
     w = line.split()
     files = []
     for fw in w[2:]:
+        if fw.startswith("%"):                      # ARGV entries that are no files
+            continue
         name, rest = fw.split("=", 1)
         h, cuts = rest.split("/", 1)
         files.append((name, unhx(h), [int(x) for x in cuts.split(",") if x]))
@@ -123,7 +140,7 @@ def exhaustive_lines(tier):
         (M_AB, "ab\r\n", 4 if q else 5), (M_AB, "abx", 5 if q else 8),
         (M_APLUS, "ab\r\n", 4 if q else 5), (M_APLUS, "ax", 7 if q else 10),
         (M_NLNL, "a\n", 7 if q else 9),
-        (M_ABCD, "abcd", 5 if q else 7), (M_ABCD, "abcdx", 4 if q else 6),
+        (M_ABCD, "abcd", 5 if q else 6), (M_ABCD, "abcdx", 4 if q else 6),
         (M_EOL, "xabc", 5 if q else 6),
         (M_ALTLONG, "abcde", 4 if q else 6),
     ]
@@ -156,6 +173,22 @@ def exhaustive_lines(tier):
                     continue
                 seenz.add((mode, s))
                 out.append("Z %s =%s/" % (mode, hx(s)))
+    # programs that abandon the first file in mid-buffer / read from a second caller / interleave a side stream: all chunkings
+    # of the first file, a fixed second file (and side file) behind it
+    second = {M_D: "c\nd\n", M_SB: "cbdb", M_P0: "c\n\nd\n", M_AB: "cabd", M_APLUS: "caad", M_SNL: "c\nd"}
+    pplan = [(M_D, "a\r\n", 4 if q else 5), (M_SB, "ab", 5 if q else 7), (M_P0, "a\n", 5 if q else 7), (M_AB, "abx", 4 if q else 5),
+             (M_APLUS, "ax", 4 if q else 6)]
+    for mode, alpha, nmax in pplan:
+        for prog in (["N1", "N2", "M1", "G2", "C2"] if q else ["N1", "N2", "N3", "M1", "M2", "G1", "G2", "V2", "S1", "C1", "C2", "R2"]):
+            extra = " f2=%s/1" % hx(second[mode]) + ((" side=%s/2" % hx(second[mode])) if prog[0] in "SCR" else "")
+            for n in range(1, nmax + 1):
+                for t in itertools.product(alpha, repeat=n):
+                    out.append("X %s@%s f1=%s/%s" % (mode, prog, hx("".join(t)), extra))
+    # byte strings that are not UTF-8, all byte chunkings through the pipe (kind U) — the incomplete / illegal sequence paths of tio.c
+    ub = [0x61, 0x0a, 0xc3, 0xa9, 0xe2, 0x82, 0xff]
+    for n in range(1, (3 if q else 4) + 1):
+        for t in itertools.product(ub, repeat=n):
+            out.append("U %s =%s/" % (M_D, bytes(t).hex()))
     # the same through hawk_rtx_readiobytes (getbline), shorter bounds
     yplan = [(M_D, "a\r\n", 5 if q else 6), (M_P0, "a\r\n", 5 if q else 6), (M_P1, "a\r\n", 4 if q else 5), (M_SB, "ab", 5 if q else 7),
              (M_AB, "abx", 4 if q else 6), (M_APLUS, "ax", 5 if q else 7), (M_ABCD, "abcd", 4 if q else 5)]
@@ -167,6 +200,7 @@ def exhaustive_lines(tier):
 
 
 def sep_sample(rng, mode):
+    mode = base_mode(mode)
     return {M_D: ["\n", "\r\n", "\r\n", "\n"], M_SB: ["b"], M_SNL: ["\n"], M_SE: ["\u00e9"], M_P0: ["\n\n", "\n\n\n", "\r\n\r\n", "\n\r\n", "\n"],
             M_P1: ["\n\n", "\n\n\n", "\r\n\r\n", "\n\r\n", "\n", "\r\n"], M_AB: ["ab"], M_APLUS: ["a", "aa", "aaaa"],
             M_ABCD: ["ab", "abcd", "abc"], M_NLNL: ["\n\n", "\n\n\n\n", "\n"], M_EOL: ["a", "xab"], M_ALTLONG: ["b", "abcde", "abcd"]}[mode]
@@ -312,6 +346,63 @@ def straddle_cases(rng, tier):
     return groups
 
 
+PROGS = ["N1", "N2", "N3", "G1", "G2", "V2", "V3", "M1", "M2", "M3", "S1", "S2", "L2", "C1", "C2", "C3", "R2"]
+BYTE_PROGS = "SC"            # programs the byte kinds (getbline in BEGIN) can run
+
+
+def records_text(rng, mode, nrec, trailing, wide=True):
+    """`nrec` records of 0..6 characters with the mode's separators"""
+    seps = sep_sample(rng, mode)
+    alpha = ("xyz" if (is_regex(mode) or base_mode(mode) in (M_SB, M_SE)) else "axyz") + ("\u00fc\u20ac" if wide else "")
+    parts = []
+    for i in range(nrec):
+        parts.append("".join(rng.choice(alpha) for _ in range(rng.choice([0, 1, 1, 2, 3, 6]))))
+        if i + 1 < nrec or trailing:
+            parts.append(rng.choice(seps))
+    return "".join(parts)
+
+
+def program_cases(rng, tier):
+    """groups of lines with the same files under different schedules, run by programs that abandon a stream in mid-buffer
+    (nextfile), read the console from a second caller (getline), or interleave a side stream that is closed and reopened"""
+    q = tier == "quick"
+    groups = []
+    for i in range(40 if q else 400):
+        mode = rng.choice(STABLE_MODES + [M_SE])
+        prog = rng.choice(PROGS)
+        mw = mode + "@" + prog
+        long_first = (i % 8 == 0)                       # a first file that more than fills the 2048-character read buffer
+        files = []
+        for fi in range(rng.choice([2, 2, 3])):
+            if fi == 0 and long_first:
+                text, _ = gen_long(rng, mode, rng.choice([2100, 4300]))
+            else:
+                text = records_text(rng, mode, rng.randrange(0, 9), rng.random() < 0.6)
+            files.append(("f%d" % (fi + 1), text))
+        if prog[0] in "SCRKL":
+            files.append(("side", records_text(rng, mode, rng.randrange(0, 7), rng.random() < 0.6)))
+
+        def cuts_for(sx, dens):
+            return [c for c in range(1, len(sx)) if rng.random() < dens]
+        g = [case_line("C", mw, [(n, sx, cuts_for(sx, 0.3 if len(sx) < 200 else 0.002)) for n, sx in files]),
+             case_line("C", mw, [(n, sx, []) for n, sx in files]),                                   # reads as large as the buffer
+             case_line("C", mw, [(n, sx, list(range(1, len(sx))) if len(sx) < 200 else list(range(7, len(sx), 7))) for n, sx in files])]
+        # the std.c chain: real files, sometimes with ARGV entries that are no files, the first file through the stdin pipe
+        fw = case_line("F", (mode + "@K" + prog[1:]) if (prog[0] == "S" and rng.random() < 0.4) else mw, [(n, sx, []) for n, sx in files])
+        if rng.random() < 0.3:
+            w = fw.split(" ")
+            w.insert(rng.randrange(2, len(w) + 1), rng.choice(["%a", "%e"]))
+            fw = " ".join(w)
+        g.append(fw)
+        g.append(case_line("F", mw, [("-" if n == "f1" else n, sx, [c for c in range(1, blen(sx)) if rng.random() < (0.3 if len(sx) < 200 else 0.002)] if n == "f1" else [])
+                                     for n, sx in files]))
+        if prog[0] in BYTE_PROGS and mode not in CHAR_ONLY_MODES:
+            g.append(case_line("B", mw, [(n, sx, cuts_for(sx, 0.3 if len(sx) < 200 else 0.002)) for n, sx in files]))
+            g.append(case_line("G", mw, [(n, sx, []) for n, sx in files]))
+        groups.append((mw, g))
+    return groups
+
+
 def small_text(rng, mode, trailing):
     seps = sep_sample(rng, mode)
     parts = []
@@ -419,10 +510,11 @@ def cuts_of_mask(n, mask):
 
 
 def is_multi(line):
-    return line[0] in "XYZ"
+    return line[0] in "XYZU"
 
 
-EXPAND = {"X": "C", "Y": "B", "Z": "P"}
+EXPAND = {"X": "C", "Y": "B", "Z": "P", "U": "P"}
+NOMODEL_KINDS = "UT"         # byte strings that are not UTF-8: no model line, the real code is compared with itself
 
 
 def units(kind, s):
@@ -432,7 +524,7 @@ def units(kind, s):
 def expand_x(line, mask):
     kind, mode, files = parse_case(line)
     name, s, _ = files[0]
-    return case_line(EXPAND[kind], mode, [(name, s, cuts_of_mask(units(kind, s), mask))])
+    return case_line(EXPAND[kind], mode, [(name, s, cuts_of_mask(units(kind, s), mask))] + files[1:])
 
 
 def nmasks(line):
@@ -442,6 +534,8 @@ def nmasks(line):
 
 def canon(line, outs):
     """what is compared with the model: everything, except in.pos/len/eof for the kinds where sio decides the chunking"""
+    if line[0] in NOMODEL_KINDS:
+        return ["-"] * len(outs)
     return [mask_state(x) for x in outs] if line[0] in STD_KINDS else list(outs)
 
 
@@ -516,7 +610,7 @@ def coverage_x(line):
     if n < 2:
         return 0
     near = set()
-    for m in re.finditer(SEP_RE[mode], s):
+    for m in re.finditer(SEP_RE[base_mode(mode)], s):
         for p in range(offs[m.start()], offs[m.end()] + 1):
             if 0 < p < n:
                 near.add(p)
@@ -534,6 +628,7 @@ def ref_records(mode, content):
     """python reference splitter (independent of the Lean model) for: newline mode, single-character mode, the stable regex
     patterns used here (re.split; a final empty piece is no record), and paragraph mode on CR-free input (the POSIX reading:
     leading newlines skipped, runs of blank lines separate, the final newline is not part of the record). None otherwise."""
+    mode = base_mode(mode)
     if mode in (M_P0, M_P1):
         if "\r" in content:
             return None
@@ -555,16 +650,84 @@ def ref_records(mode, content):
 
 
 def ref_seen(mode, files):
-    """expected `r<nr>:<fnr>:<name>:<hex>` list for a chain of files, by the python reference (None if no reference)"""
+    """expected `r<nr>:<fnr>:<name>:<hex>` list by the python reference (None if there is none for the mode): the records of
+    each file split on its own bytes, walked by the program the MODE word names (nextfile abandons the rest of the file; getline
+    takes the next record of the chain; the side stream `side` is read record by record and starts over after close())"""
+    letter, k = prog_of(mode)
+    cons = [(n, ref_records(mode, c)) for n, c, _ in files if n != "side"]
+    side = [ref_records(mode, c) for n, c, _ in files if n == "side"]
+    if any(r is None for _, r in cons) or any(r is None for r in side):
+        return None
+    side = side[0] if side else []
     out = []
-    nr = 0
-    for name, content, _ in files:
-        recs = ref_records(mode, content)
-        if recs is None:
+    st = dict(fi=0, pi=0, nr=0, fnr=0, sp=0, sn=0, name=cons[0][0] if cons else "")
+
+    def nxt():
+        while st["fi"] < len(cons) and st["pi"] >= len(cons[st["fi"]][1]):
+            if st["fi"] + 1 >= len(cons):
+                return None
+            st["fi"] += 1
+            st["pi"] = 0
+            st["fnr"] = 0
+            st["name"] = cons[st["fi"]][0]
+        if st["fi"] >= len(cons):
             return None
-        for k, r in enumerate(recs):
-            nr += 1
-            out.append("r%d:%d:%s:%s" % (nr, k + 1, name, hx(r)))
+        r = cons[st["fi"]][1][st["pi"]]
+        st["pi"] += 1
+        st["nr"] += 1
+        st["fnr"] += 1
+        return r
+
+    def pr(r):
+        out.append("r%d:%d:%s:%s" % (st["nr"], st["fnr"], st["name"], hx(r)))
+
+    def nextfile():
+        if st["fi"] + 1 >= len(cons):
+            return False
+        st["fi"] += 1
+        st["pi"] = 0
+        st["fnr"] = 0
+        st["name"] = cons[st["fi"]][0]
+        return True
+
+    def side_read():
+        if st["sp"] < len(side):
+            st["sn"] += 1
+            out.append("r0:%d:side:%s" % (st["sn"], hx(side[st["sp"]])))
+            st["sp"] += 1
+            return True
+        return False
+    while True:
+        r = nxt()
+        if r is None:
+            break
+        pr(r)
+        if letter == "N":
+            if st["fnr"] == k and not nextfile():
+                break
+        elif letter in "GV":
+            if st["nr"] % k == 0:
+                r2 = nxt()
+                if r2 is not None:
+                    pr(r2)
+        elif letter == "M":
+            if st["nr"] % 2 == 0:
+                r2 = nxt()
+                if r2 is not None:
+                    pr(r2)
+            if st["fnr"] >= k and not nextfile():
+                break
+        elif letter in "SKL":
+            if st["nr"] % k == 0:
+                side_read()
+        elif letter in "CR":
+            side_read()
+            if st["nr"] % k == 0:
+                st["sp"] = 0
+                st["sn"] = 0
+    if letter in "SKL":
+        while side_read():
+            pass
     return out
 
 
@@ -596,6 +759,27 @@ def run(ctx):
         o = R.model(["W %s =%s/" % (mode, hx(content))], timeout=60 + len(content) // 10)
         return o[0] if o and o[0].startswith("unstable") else None
 
+    def run_both(lines):
+        """the real code and the model on the same lines, split over the workers; -> (impl out, model out, status, stderr)"""
+        if len(lines) < 8:
+            co_, st_, ce_ = R.impl(lines)
+            return co_, R.model(lines), st_, ce_
+        nb = min(NWORK, max(1, len(lines) // 4))
+        size = (len(lines) + nb - 1) // nb
+        parts = [lines[i:i + size] for i in range(0, len(lines), size)]
+        with ThreadPoolExecutor(max_workers=2 * len(parts)) as ex_:
+            fi = [ex_.submit(R.impl, p_) for p_ in parts]
+            fm = [ex_.submit(R.model, p_) for p_ in parts]
+            ri = [f_.result() for f_ in fi]
+            rm = [f_.result() for f_ in fm]
+        co_, mo_, st_, ce_ = [], [], "ok", ""
+        for (o_, s_, e_), m_ in zip(ri, rm):
+            co_ += o_
+            mo_ += m_
+            if s_ != "ok" and st_ == "ok":
+                st_, ce_ = s_, e_
+        return co_, mo_, st_, ce_
+
     def impl_records(lines):
         co, st, ce = R.impl(lines, wd=20)
         return [records_only(x) for x in co], st, ce
@@ -620,7 +804,7 @@ def run(ctx):
     def oracle_chunkdep(mode, la, lb):
         """same bytes, two schedules (chunkings and/or reading paths), different records on the real code"""
         key = ("chunkdep", layer_of(la, lb), mode)
-        if key in hit_keys:
+        if key in hit_keys or len(oracle_hits) >= MAX_HITS:       # a violating tree must not cost unbounded shrinking time
             return
         hit_keys.add(key)
 
@@ -629,49 +813,56 @@ def run(ctx):
             return len(co_) == 2 and records_nofn(co_[0]) != records_nofn(co_[1])
         ka, _, fa = parse_case(la)
         kb, _, fb = parse_case(lb)
-        name, s, ca = fa[0]
-        ca, cb = set(ca), set(fb[0][2])
         bca, bcb = ka in BYTECUT_KINDS, kb in BYTECUT_KINDS
         items = []
-        pa = pb = 0
-        for ch in s:
-            wa, wb = (blen(ch) if bca else 1), (blen(ch) if bcb else 1)
-            items += [("A", d) for d in range(wa) if pa + d in ca]
-            items += [("B", d) for d in range(wb) if pb + d in cb]
-            items.append(("ch", ch))
-            pa += wa
-            pb += wb
+        for fi, ((na, s, ca), (nb_, _, cb)) in enumerate(zip(fa, fb)):
+            ca, cb = set(ca), set(cb)
+            pa = pb = 0
+            for ch in s:
+                wa, wb = (blen(ch) if bca else 1), (blen(ch) if bcb else 1)
+                items += [("A", fi, d) for d in range(wa) if pa + d in ca]
+                items += [("B", fi, d) for d in range(wb) if pb + d in cb]
+                items.append(("ch", fi, ch))
+                pa += wa
+                pb += wb
 
         def build(sub):
-            t, xa, xb = [], [], []
-            qa = qb = 0
-            penda, pendb = [], []
-            for k, ch in sub:
-                if k == "A":
-                    penda.append(ch)
-                elif k == "B":
-                    pendb.append(ch)
-                else:
-                    wa, wb = (blen(ch) if bca else 1), (blen(ch) if bcb else 1)
-                    xa += [qa + (d if d < wa else 0) for d in penda]
-                    xb += [qb + (d if d < wb else 0) for d in pendb]
-                    penda, pendb = [], []
-                    t.append(ch)
-                    qa += wa
-                    qb += wb
-            t = "".join(t)
-            return case_line(ka, mode, [(name, t, xa)]), case_line(kb, mode, [(name, t, xb)])
+            outa, outb = [], []
+            for fi, ((na, _, _), (nb_, _, _)) in enumerate(zip(fa, fb)):
+                t, xa, xb = [], [], []
+                qa = qb = 0
+                penda, pendb = [], []
+                for k, f_, ch in sub:
+                    if f_ != fi:
+                        continue
+                    if k == "A":
+                        penda.append(ch)
+                    elif k == "B":
+                        pendb.append(ch)
+                    else:
+                        wa, wb = (blen(ch) if bca else 1), (blen(ch) if bcb else 1)
+                        xa += [qa + (d if d < wa else 0) for d in penda]
+                        xb += [qb + (d if d < wb else 0) for d in pendb]
+                        penda, pendb = [], []
+                        t.append(ch)
+                        qa += wa
+                        qb += wb
+                t = "".join(t)
+                outa.append((na, t, xa))
+                outb.append((nb_, t, xb))
+            return case_line(ka, mode, outa), case_line(kb, mode, outb)
         small = C.ddmin(items, lambda sub: dep(*build(sub)), max_tests=200)
         sa, sb = build(small)
         if not dep(sa, sb):
             sa, sb = la, lb
         co, st, _ = R.impl([sa, sb], wd=20)
         content = parse_case(sa)[2][0][1]
-        w = witness_unstable(mode, content) if layer_of(sa, sb) == "rio" else None
+        w = witness_unstable(base_mode(mode), "".join(f_[1] for f_ in parse_case(sa)[2])) if layer_of(sa, sb) == "rio" else None
         sig = "regex-rs-unstable" if (w and is_regex(mode)) else None
         k1, k2 = parse_case(sa)[0], parse_case(sb)[0]
-        what = "same bytes, different records (mode %s, input %r = bytes %s): schedule A (kind %s, cuts=%r) -> %s ; schedule B (kind %s, cuts=%r) -> %s%s" % (
-            mode, content, hx(content), k1, parse_case(sa)[2][0][2], records_only(co[0])[:200] if co else "<none>", k2, parse_case(sb)[2][0][2],
+        fsa, fsb = parse_case(sa)[2], parse_case(sb)[2]
+        what = "same bytes, different records (mode %s, files %r = bytes %s): schedule A (kind %s, cuts=%r) -> %s ; schedule B (kind %s, cuts=%r) -> %s%s" % (
+            mode, [(n_, c_) for n_, c_, _ in fsa], [hx(c_) for _, c_, _ in fsa], k1, [x_[2] for x_ in fsa], records_only(co[0])[:200] if co else "<none>", k2, [x_[2] for x_ in fsb],
             records_only(co[1])[:200] if len(co) > 1 else "<none>",
             (" ; the RS matcher is not stable on this text (Lean matcher): " + w) if w else "")
         what += " [kind %s: %s]" % (k1, LAYERS.get(k1, "?")) + ("" if k2 == k1 else " [kind %s: %s]" % (k2, LAYERS.get(k2, "?")))
@@ -681,7 +872,7 @@ def run(ctx):
         """newline / single-character mode: records, NR, FNR, FILENAME against the python reference"""
         kind, mode, files = parse_case(line)
         exp = ref_seen(mode, files)
-        if exp is None or implrec.split() == exp or ("ref", layer_of(line), mode) in hit_keys:
+        if exp is None or implrec.split() == exp or ("ref", layer_of(line), mode) in hit_keys or len(oracle_hits) >= MAX_HITS:
             return
         hit_keys.add(("ref", layer_of(line), mode))
 
@@ -740,8 +931,7 @@ def run(ctx):
         for f in sorted(os.listdir(cdir)):
             corpus += [l.strip() for l in open(os.path.join(cdir, f)) if l.strip() and not l.startswith("#")]
     if corpus:
-        co, st, ce = R.impl(corpus)
-        mo = R.model(corpus)
+        co, mo, st, ce = run_both(corpus)
         oracle_status(corpus, st, ce, "corpus")
         ci = 0
         groups = {}
@@ -780,8 +970,7 @@ def run(ctx):
     lines = []
     for mode, cl, fl, bl, singles in mf:
         lines += [cl, fl, bl] + singles
-    co, st, ce = R.impl(lines)
-    mo = R.model(lines)
+    co, mo, st, ce = run_both(lines)
     ev["n"] += len(lines)
     oracle_status(lines, st, ce, "multi-file chains")
     i = 0
@@ -813,10 +1002,9 @@ def run(ctx):
     ctx.log("multi-file chains done")
     # ---------------- long inputs: cut points inside CRLF, inside separators, at the 2048 edge ---------------------------------
     allmodes = STABLE_MODES + [M_ABCD, M_EOL]
-    groups = long_cases(rng, ctx.tier, allmodes) + straddle_cases(rng, ctx.tier)
+    groups = long_cases(rng, ctx.tier, allmodes) + straddle_cases(rng, ctx.tier) + program_cases(rng, ctx.tier)
     lines = [l for _, g in groups for l in g]
-    co, st, ce = R.impl(lines)
-    mo = R.model(lines)
+    co, mo, st, ce = run_both(lines)
     ev["n"] += len(lines)
     oracle_status(lines, st, ce, "long inputs")
     i = 0
@@ -824,7 +1012,7 @@ def run(ctx):
         a, b = co[i:i + len(g)], mo[i:i + len(g)]
         i += len(g)
         for l in g:
-            bump("long-%s:%s" % (l[0], mode.split(":")[0][:12]))
+            bump("long-%s:%s%s" % (l[0], base_mode(mode).split(":")[0][:12], ("@" + mode.split("@")[1]) if "@" in mode else ""))
         ev["nontrivial"] += len(g)
         recs = [records_only(x) for x in a]
         if len(recs) == len(g):
@@ -832,10 +1020,8 @@ def run(ctx):
             j = next((j for j in range(1, len(g)) if cmpr[j] != cmpr[0]), None)
             if j is not None:
                 oracle_chunkdep(mode, g[0], g[j])
-            oracle_reference(g[0], recs[0])
-            if g[0][0] in STD_KINDS:                     # straddle group: every line against the reference splitter
-                for l, r in zip(g[1:], recs[1:]):
-                    oracle_reference(l, r)
+            for l, r in zip(g, recs):                    # every line against the reference splitter
+                oracle_reference(l, r)
         a = [canon(l, [x])[0] for l, x in zip(g, a)]
         b = [canon(l, [x])[0] for l, x in zip(g, b)]
         if a != b or len(a) != len(g):
@@ -893,7 +1079,7 @@ def run(ctx):
                             if records_only(a[j]) != r0:
                                 oracle_chunkdep(mode, expand_x(line, 0), expand_x(line, j))
                                 break
-                    if ("ref", layer_of(line), mode) not in hit_keys:
+                    if line[0] not in NOMODEL_KINDS and ("ref", layer_of(line), mode) not in hit_keys:
                         oracle_reference(expand_x(line, 0), r0)
                 a, m = canon(line, a), canon(line, m)
                 if a != m:
